@@ -168,7 +168,7 @@ func Check(id, tier string, seed int) int {
 			sem <- struct{}{}
 			defer func() { <-sem }()
 			opts := up.Opts
-			opts.Cover = true
+			opts.Cover = !opts.NoCover
 			u, err := e.VerifyFunc(up.Func, opts)
 			results[i] = unitRes{up, u, err}
 			if err == nil {
